@@ -8,10 +8,16 @@
 (* oracle (SameLayout).                                                    *)
 (*                                                                         *)
 (* Schema node (uniform record):                                           *)
-(*   [k, s, n, ts, sz, al, off, lay, er]                                   *)
+(*   [k, s, n, ts, sz, al, off, lay, er, nm]                               *)
 (*   k   kind: "prim" "vector" "array" "option" "struct" "enum" "variant"  *)
 (*       "zero" "boxed" "recursion" "ioerror" "utc" "undefined" "custom"   *)
-(*       "slice" "str" "ref" "other"                                       *)
+(*       "slice" "str" "ref" "uninit" "other"                              *)
+(*       and the nodes savefile-abi puts into schemas:                     *)
+(*       "trait" (n = flag, ts = <<traitdef>>), "fnclosure" (likewise),    *)
+(*       "future" (n = send + 2 sync + 4 unpin, ts = <<traitdef>>),        *)
+(*       "traitdef" (s = name, n = sync + 2 send, ts = methods),           *)
+(*       "method" (s = name, n = receiver (0 &self, 1 &mut self, 2 Pin)    *)
+(*                 + 4 * async flag, ts = <<return>> \o arguments)         *)
 (*   s   primitive name / struct, enum, variant name / custom string       *)
 (*   n   array count / enum discriminant size / variant discriminant /     *)
 (*       recursion depth                                                   *)
@@ -19,12 +25,14 @@
 (*   sz, al, off : size, alignment, field offset  (-1 = unknown / None)    *)
 (*   lay : VecOrStringLayout name ("" if not applicable)                   *)
 (*   er  : has_explicit_repr                                               *)
+(*   nm  : the name under which this node is a FIELD of its parent         *)
 (***************************************************************************)
 EXTENDS Wire
 
-SN(k, s, n, ts) == [k |-> k, s |-> s, n |-> n, ts |-> ts, sz |-> -1, al |-> -1, off |-> -1, lay |-> "", er |-> FALSE]
+SN(k, s, n, ts) == [k |-> k, s |-> s, n |-> n, ts |-> ts, sz |-> -1, al |-> -1, off |-> -1, lay |-> "", er |-> FALSE, nm |-> ""]
 SNL(k, s, n, ts, sz, al, off, lay, er) ==
-    [k |-> k, s |-> s, n |-> n, ts |-> ts, sz |-> sz, al |-> al, off |-> off, lay |-> lay, er |-> er]
+    [k |-> k, s |-> s, n |-> n, ts |-> ts, sz |-> sz, al |-> al, off |-> off, lay |-> lay, er |-> er, nm |-> ""]
+Named(x, name) == [x EXCEPT !.nm = name]
 
 SPrim(name)     == SN("prim", name, 0, <<>>)
 SVector(e)      == SN("vector", "", 0, <<e>>)
@@ -205,6 +213,14 @@ NoRecursionMarker(s) == s.k # "recursion" /\ \A i \in 1..Len(s.ts) : NoRecursion
 (* reported).  a = in-memory schema, b = file schema.                  *)
 (* ------------------------------------------------------------------ *)
 RECURSIVE Diff(_, _)
+\* diff_abi_def: every method of a that b also has (first of that name) must have the same number of arguments
+\* and pairwise undifferent argument schemas (ts[1] of a method is its return value: not compared here)
+DiffDef(a, b) ==
+    \E i \in 1..Len(a.ts) :
+        LET hits == {j \in 1..Len(b.ts) : b.ts[j].s = a.ts[i].s} IN
+        hits # {} /\ LET bm == b.ts[CHOOSE j \in hits : \A h \in hits : j <= h]  am == a.ts[i] IN
+                     \/ Len(am.ts) # Len(bm.ts)
+                     \/ \E k \in 2..Len(am.ts) : Len(am.ts) = Len(bm.ts) /\ Diff(am.ts[k], bm.ts[k])
 DiffFields(fa, fb) ==
     \/ Len(fa) # Len(fb)
     \/ \E i \in 1..Len(fa) : Len(fa) = Len(fb) /\ Diff(fa[i], fb[i])
@@ -227,7 +243,8 @@ Diff(a, b) ==
            [] a.k = "custom" -> a.s # b.s
            [] a.k \in {"boxed", "ref", "slice"} -> Diff(a.ts[1], b.ts[1])
            [] a.k = "recursion" -> a.n # b.n
-           [] a.k \in {"zero", "str", "utc", "ioerror"} -> FALSE
+           [] a.k \in {"zero", "str", "utc", "ioerror", "uninit"} -> FALSE
+           [] a.k \in {"trait", "fnclosure"} -> a.n # b.n \/ DiffDef(a.ts[1], b.ts[1])
            [] OTHER -> TRUE
 
 (* ------------------------------------------------------------------ *)
@@ -239,8 +256,8 @@ Diff(a, b) ==
 (* ------------------------------------------------------------------ *)
 RECURSIVE Erase(_)
 Erase(s) ==
-    SN(s.k, IF s.k \in {"prim", "variant", "custom"} THEN s.s ELSE "",
-       IF s.k \in {"array", "enum", "variant", "recursion"} THEN s.n ELSE 0,
+    SN(s.k, IF s.k \in {"prim", "variant", "custom", "traitdef", "method"} THEN s.s ELSE "",
+       IF s.k \in {"array", "enum", "variant", "recursion", "trait", "fnclosure", "future", "traitdef", "method"} THEN s.n ELSE 0,
        [i \in 1..Len(s.ts) |-> Erase(s.ts[i])])
 SameTree(a, b) == Erase(a) = Erase(b)
 
@@ -264,7 +281,8 @@ SameFlat(a, b) == FlatKinds(a) = FlatKinds(b)
 (* SameLayout   : the semantic criterion                               *)
 (* ------------------------------------------------------------------ *)
 RECURSIVE LayoutCompat(_, _)
-FieldCompat(a, b) == a.off >= 0 /\ b.off >= 0 /\ a.off = b.off /\ LayoutCompat(a, b)
+\* (two different fields can occupy the same place: a removed field's slot reused by a later one -- the names must agree)
+FieldCompat(a, b) == a.off >= 0 /\ b.off >= 0 /\ a.off = b.off /\ a.nm = b.nm /\ LayoutCompat(a, b)
 LayoutCompat(a, b) ==
     IF a.k # b.k THEN FALSE
     ELSE CASE a.k = "struct" ->
@@ -293,13 +311,14 @@ LayoutCompat(a, b) ==
 
 RECURSIVE SameLayout(_, _)
 \* both sides provably use the identical memory layout: same kind, every annotation present and equal,
-\* recursively, nothing unknown
+\* recursively, nothing unknown; and what lies at each place is THE SAME FIELD on both sides
 SameLayout(a, b) ==
     /\ a.k = b.k
     /\ CASE a.k = "struct" ->
                 /\ a.sz >= 0 /\ a.al >= 0 /\ a.sz = b.sz /\ a.al = b.al
                 /\ Len(a.ts) = Len(b.ts)
-                /\ \A i \in 1..Len(a.ts) : a.ts[i].off >= 0 /\ a.ts[i].off = b.ts[i].off /\ SameLayout(a.ts[i], b.ts[i])
+                /\ \A i \in 1..Len(a.ts) : /\ a.ts[i].off >= 0 /\ a.ts[i].off = b.ts[i].off /\ a.ts[i].nm = b.ts[i].nm
+                                            /\ SameLayout(a.ts[i], b.ts[i])
          [] a.k = "enum" ->
                 /\ a.er /\ b.er /\ a.sz >= 0 /\ a.al >= 0 /\ a.sz = b.sz /\ a.al = b.al /\ a.n = b.n
                 /\ Len(a.ts) = Len(b.ts)
@@ -307,6 +326,7 @@ SameLayout(a, b) ==
                       /\ a.ts[i].n = b.ts[i].n /\ Len(a.ts[i].ts) = Len(b.ts[i].ts)
                       /\ \A j \in 1..Len(a.ts[i].ts) :
                             /\ a.ts[i].ts[j].off >= 0 /\ a.ts[i].ts[j].off = b.ts[i].ts[j].off
+                            /\ a.ts[i].ts[j].nm = b.ts[i].ts[j].nm
                             /\ SameLayout(a.ts[i].ts[j], b.ts[i].ts[j])
          [] a.k = "prim" -> a.s = b.s /\ (a.s = "string" => a.lay \notin {"", "Unknown"} /\ a.lay = b.lay)
          [] a.k = "vector" -> a.lay \notin {"", "Unknown"} /\ a.lay = b.lay /\ SameLayout(a.ts[1], b.ts[1])
